@@ -480,6 +480,9 @@ func (c *CaseC01) Eval(ob *Obs) []Finding {
 	}
 	if c.CLI && c.Only == nil {
 		out = append(out, c.evalCLI(ob, m)...)
+		if len(out) == 0 {
+			out = append(out, c.evalCLIMore(ob, m)...)
+		}
 	}
 	return out
 }
@@ -539,6 +542,120 @@ func (c *CaseC01) evalCLI(ob *Obs, m *refModel) []Finding {
 				if !ok || math.Abs(gv-wf) > 0.005+1e-9*math.Abs(wf) {
 					return append(out, Finding{"C01 cli-wrong-resolution", fmt.Sprintf("order %s: recipe %q element %q printed %v, model %v", mode, name, el, gv, wf)})
 				}
+			}
+		}
+	}
+	return out
+}
+
+// evalCLIMore observes the resolved book through two more reports of the whole program:
+// `report element-total X` (one row per recipe that contains X) and the ingredient lines of `reg`
+// for a log that takes every recipe once.
+func (c *CaseC01) evalCLIMore(ob *Obs, m *refModel) []Finding {
+	var out []Finding
+	els := map[string]bool{}
+	for _, n := range m.order {
+		for el := range m.resolved(n) {
+			els[el] = true
+		}
+	}
+	var elNames []string
+	for el := range els {
+		elNames = append(elNames, el)
+	}
+	sort.Strings(elNames)
+	bookText := render(c.Book, c.Layout)
+	near := func(got float64, want *big.Rat) bool {
+		wf, _ := want.Float64()
+		return math.Abs(got-wf) <= 0.005+1e-9*math.Abs(wf)
+	}
+	for i, el := range elNames {
+		if i >= 2 {
+			break
+		}
+		w := stdWorld(bookText, "")
+		w.Order = OrderPlan{Mode: "shuffle", Seed: c.Seeds[1]}
+		w.Argv = []string{"hranoprovod-cli", "--maxdepth", strconv.Itoa(c.MaxDepth), "report", "element-total", el}
+		r := ob.run(w)
+		if r.Failed {
+			return append(out, Finding{"C01 cli-resolve-fails", fmt.Sprintf("report element-total %q failed: %s %s", el, r.Err, r.Panic)})
+		}
+		got := map[string]float64{}
+		for _, ln := range splitLines(r.Stdout, "\n") {
+			tab := strings.Index(ln, "\t")
+			if tab < 0 {
+				return append(out, Finding{"C01 cli-output-unreadable", ln})
+			}
+			v, err := strconv.ParseFloat(ln[:tab], 64)
+			if _, dup := got[ln[tab+1:]]; err != nil || dup {
+				return append(out, Finding{"C01 cli-wrong-resolution", fmt.Sprintf("report element-total %q: bad or duplicate row %q", el, ln)})
+			}
+			got[ln[tab+1:]] = v
+		}
+		for _, name := range m.order {
+			want, has := m.resolved(name)[el]
+			gv, printed := got[name]
+			if has != printed || (has && !near(gv, want)) {
+				wf := 0.0
+				if has {
+					wf, _ = want.Float64()
+				}
+				return append(out, Finding{"C01 cli-wrong-resolution", fmt.Sprintf("report element-total %q: recipe %q printed=%v %v, model has=%v %v", el, name, printed, gv, has, wf)})
+			}
+		}
+	}
+	// ingredient lines of the register
+	var day strings.Builder
+	day.WriteString("2021/01/20:\n")
+	for _, n := range m.order {
+		day.WriteString("  " + n + ": 1\n")
+	}
+	w := stdWorld(bookText, day.String())
+	w.Order = OrderPlan{Mode: "desc"}
+	w.Argv = []string{"hranoprovod-cli", "--no-color", "--maxdepth", strconv.Itoa(c.MaxDepth), "reg", "--no-totals"}
+	r := ob.run(w)
+	if r.Failed {
+		return append(out, Finding{"C01 cli-resolve-fails", fmt.Sprintf("reg failed: %s %s", r.Err, r.Panic)})
+	}
+	got := map[string]map[string]float64{}
+	cur := ""
+	for _, ln := range splitLines(r.Stdout, "\n") {
+		switch {
+		case strings.HasPrefix(ln, "\t\t"):
+			f := strings.Fields(ln)
+			if len(f) < 2 || cur == "" {
+				return append(out, Finding{"C01 cli-output-unreadable", ln})
+			}
+			v, err := strconv.ParseFloat(f[len(f)-1], 64)
+			if err != nil {
+				return append(out, Finding{"C01 cli-output-unreadable", ln})
+			}
+			name := strings.TrimSpace(strings.TrimSuffix(strings.TrimSpace(ln), f[len(f)-1]))
+			if _, dup := got[cur][name]; dup {
+				return append(out, Finding{"C01 cli-wrong-resolution", fmt.Sprintf("reg: ingredient %q printed twice under %q", name, cur)})
+			}
+			got[cur][name] = v
+		case strings.HasPrefix(ln, "\t"):
+			i := strings.LastIndex(ln, " :")
+			if i < 0 {
+				return append(out, Finding{"C01 cli-output-unreadable", ln})
+			}
+			cur = strings.TrimSpace(ln[1:i])
+			got[cur] = map[string]float64{}
+		}
+	}
+	for _, name := range m.order {
+		want := m.resolved(name)
+		if len(m.book[name]) == 0 {
+			continue // an empty recipe prints no ingredient line
+		}
+		if len(got[name]) != len(want) {
+			return append(out, Finding{"C01 cli-wrong-resolution", fmt.Sprintf("reg: recipe %q shows %d ingredient lines, model has %d elements", name, len(got[name]), len(want))})
+		}
+		for el, wv := range want {
+			if gv, ok := got[name][el]; !ok || !near(gv, wv) {
+				wf, _ := wv.Float64()
+				return append(out, Finding{"C01 cli-wrong-resolution", fmt.Sprintf("reg: recipe %q ingredient %q printed %v (present=%v), model %v", name, el, gv, ok, wf)})
 			}
 		}
 	}
